@@ -26,9 +26,15 @@ COMMENTS = ['/*c*/', '/**/', '/***/', '/* * / */', '/*\n*/', '/*a\r\nb\rc\u2028d
             '// /* \n', '/*//*/', '//*/\n', '/* " */', "/*'*/"]
 
 
+KW_SUFFIX = ['x', '_', '$', '1', 'Check', 's', u'\u00e9', 'of', 'In']
+
+
 def element():
     return st.one_of(
         st.sampled_from(IDENTS).map(lambda s: ('id', s)),
+        # every reserved word extended to an identifier (keyword only on exact match), or prefixed
+        st.tuples(st.sampled_from(KEYWORDS), st.sampled_from(KW_SUFFIX)).map(lambda t: ('id', t[0] + t[1])),
+        st.tuples(st.sampled_from(['x', '_', '$']), st.sampled_from(KEYWORDS)).map(lambda t: ('id', t[0] + t[1])),
         st.sampled_from(KEYWORDS).map(lambda s: ('kw', s)),
         st.sampled_from(PUNCT).map(lambda s: ('p', s)),
         st.sampled_from(NUMS).map(lambda s: ('num', s)),
